@@ -50,6 +50,25 @@ def closed_connections_are_removed(ctx: Ctx, rule: str):
     ctx.rule(rule, "a connection that is closed is also removed from the node's tables: "
                    "signalled close, or close_connection_socket/remove_peer_connection on the "
                    "same path, or never registered", floor=5)
+    # the signalled close publishes CLOSED before it wakes the I/O loop
+    pc_ = model.cls("node.peer", "PeerConnection")
+    cl_ = pc_.methods.get("close")
+    cons = "PeerConnection.close:publish-then-signal"
+    ctx.inst(cons, rule=rule)
+    if cl_ is not None:
+        ctx.use(cl_)
+        gc_ = cfg_of(cl_)
+        closed_v = model.fold_name(pc_.module, "PEER_CLOSED")
+        st_ = [n for n in gc_.nodes if n.kind == "stmt" and isinstance(n.ast, ast.Assign)
+               and any(A.dotted(t) == "self.state" for t in n.stores())
+               and model.try_fold(n.ast.value, pc_.module) == closed_v]
+        sg_ = [n for n in gc_.nodes if any(A.call_name(c) == "self.demand_attention" for c in n.calls())]
+        if not st_ or not sg_:
+            ctx.fail(cons, cl_.loc(), "close() does not store PEER_CLOSED and wake the I/O loop", rule=rule)
+        elif not all(gc_.dominated(s_, st_) for s_ in sg_):
+            ctx.fail(cons, gc_.loc(sg_[0]), "close() wakes the I/O loop before the state is PEER_CLOSED: "
+                     "a wake-up handled in that gap finds nothing to do and the connection is never "
+                     "removed from the node's tables", rule=rule)
     for f, call in conn_close_calls(model):
         recv = ast.unparse(call.func.value)
         sig = signal_flag(call)
@@ -332,6 +351,21 @@ def route_answer_discipline(ctx: Ctx, rule: str):
                      "the pending-request record: a second answer for the same request (e.g. from a "
                      "deadline fallback racing the worker) is routed and transmitted as well",
                      rule=rule)
+    # the removal is the atomic test-and-remove: it fails when the record is already gone
+    cons_a = "route_answer:removal-is-exclusive"
+    ctx.inst(cons_a, rule=rule)
+    for d in dels:
+        locked = any(isinstance(w, ast.With) and any("lock" in ast.unparse(i.context_expr).lower()
+                                                     for i in w.items) for w in d.lexical)
+        for c in d.calls():
+            if isinstance(c.func, ast.Attribute) and c.func.attr == "pop" \
+                    and "_peer_waiting_answer" in ast.unparse(c.func.value) \
+                    and (len(c.args) > 1 or c.keywords) and isinstance(d.ast, ast.Expr) and not locked:
+                ctx.fail(cons_a, g.loc(d), f"`{d.text(90)}` removes the pending record tolerantly (a "
+                         f"default is given and the result ignored) and outside any lock: the "
+                         f"membership test and the removal are not atomic, so two threads answering "
+                         f"the same request both pass the test and both answers are transmitted "
+                         f"(with `del`/`pop(key)` the second one fails)", rule=rule)
     # the delete removes the record of exactly this answer's id under the waiting host
     mid = None
     for n in g.nodes:
@@ -524,3 +558,289 @@ def connection_table_pairing(ctx: Ctx, rule: str):
                      f"the delete from {tbl} only happens under `{ast.unparse(bad)}`, which is "
                      f"not a membership test on the table: on the other branch the entry stays")
 
+
+
+# Classes whose instances the node keys tables by / compares by *identity*.  Frozen after reading
+# the code; one line of reason each.
+IDENTITY_CLASSES = {
+    ("node.application", "Application"):
+        "key of Node._peer_routes[realm] and operand of `app == route_app`: two applications "
+        "with one id on different peers must stay two routes",
+    ("node.peer", "PeerConnection"):
+        "value of Node.connections compared with `is`/`==` when a route or waiter is matched",
+}
+
+
+def identity_semantics(ctx: Ctx, rule: str):
+    """Equality and hashing of the table-key classes are object identity: neither the class, a
+    subclass nor a base inside the package defines __eq__/__hash__ or is a dataclass with eq."""
+    model = ctx.model
+    ctx.rule(rule, "classes the routing tables are keyed by compare and hash by identity (no "
+                   "__eq__/__hash__, no eq-dataclass) - value equality would merge distinct "
+                   "applications/connections into one table entry", floor=4)
+    for (mod, name), why in IDENTITY_CLASSES.items():
+        root = model.cls(mod, name)
+        family = [root] + [c for c in model.mro(root) if c is not root] + model.subclasses(root)
+        seen = []
+        for ci in family:
+            if ci in seen:
+                continue
+            seen.append(ci)
+            cons = f"{ci.name}:identity-equality"
+            ctx.use(ci)
+            ctx.inst(cons, sample={"root": name, "why": why})
+            bad = None
+            for m in ("__eq__", "__hash__", "__ne__"):
+                if m in ci.methods or m in ci.class_assigns:
+                    bad = f"defines {m}"
+            for d in ci.node.decorator_list:
+                dn = A.dotted(d.func) if isinstance(d, ast.Call) else A.dotted(d)
+                if dn and dn.split(".")[-1] == "dataclass":
+                    eq_off = isinstance(d, ast.Call) and any(
+                        k.arg == "eq" and isinstance(k.value, ast.Constant) and k.value.value is False
+                        for k in d.keywords)
+                    if not eq_off:
+                        bad = "is a dataclass with generated __eq__"
+                elif dn and dn.split(".")[-1] == "total_ordering":
+                    bad = "uses total_ordering"
+            if bad:
+                ctx.fail(cons, ci.loc(), f"{ci.name} {bad}: instances of {name} are table keys / "
+                         f"compared by identity ({why}); with value equality two distinct objects "
+                         f"collapse into one entry and traffic reaches the wrong one")
+
+
+def connect_failure_closes(ctx: Ctx, rule: str):
+    """Once _connect_to_peer has registered the new connection, every failure of the socket's
+    connect call is handled inside the function: either the in-progress case or
+    close_connection_socket.  Under the fault model connect()/connectx() raise OSError (any
+    subclass); a handler list that names only some subclasses lets the others escape with the
+    connection still in every table and its socket open."""
+    from ..effects import fault_effects_of
+    from ..srcmodel import AnalysisError
+    model = ctx.model
+    nc = model.cls("node.node", "Node")
+    f = nc.methods.get("_connect_to_peer")
+    if f is None:
+        raise AnalysisError("Node._connect_to_peer not found")
+    ctx.use(f)
+    ctx.rule(rule, "a failing connect()/connectx() of a registered connection never escapes "
+                   "_connect_to_peer: it is the in-progress case or ends in close_connection_socket",
+             floor=1)
+    F = fault_effects_of(model)
+    g = cfg_of(f, effects=F)
+    sites = [n for n in g.nodes if n.kind == "stmt" and any(
+        isinstance(c.func, ast.Attribute) and c.func.attr in ("connect", "connectx", "connect_ex")
+        for c in n.calls())]
+    if not sites:
+        raise AnalysisError("_connect_to_peer has no connect()/connectx() call")
+    for n in sites:
+        cons = f"_connect_to_peer:{n.text(40).split('(')[0].split('.')[-1]}-failure-handled@{_branch_tag(g, n)}"
+        ctx.inst(cons, rule=rule, sample={"raises": sorted(n.raises), "where": g.loc(n)})
+        if not n.raises:
+            ctx.error(f"the fault model attaches no exception to `{n.text(60)}`", rule=rule)
+            continue
+        esc = [d for l, d in n.succ if l in ("exc", "raise") and d is g.raise_exit]
+        if esc:
+            ctx.fail(cons, g.loc(n), f"`{n.text(60)}` can fail with {sorted(n.raises)} (or a subclass) "
+                     f"that no handler around it catches: the exception leaves _connect_to_peer "
+                     f"after the connection was registered - it stays in connections / peer_sockets / "
+                     f"socket_peers with its socket open, Peer.connection keeps referencing it (the "
+                     f"peer is never dialled again) and no disconnect reason is recorded", rule=rule)
+            continue
+
+
+def wakeup_tokens_all_handled(ctx: Ctx, rule: str):
+    """Every wake-up a connection writes to the node's self-pipe is acted upon.  A wake-up is one
+    connection id (os.urandom(N).hex() written as N raw bytes by demand_attention); the reader
+    in _handle_connections either reads exactly N bytes per select round (the remaining
+    tokens wake select again) or iterates over every N-byte token of a larger read without
+    leaving the loop early."""
+    from ..srcmodel import AnalysisError
+    model = ctx.model
+    nc = model.cls("node.node", "Node")
+    pc = model.cls("node.peer", "PeerConnection")
+    hc = nc.methods.get("_handle_connections")
+    gen = nc.methods.get("_generate_connection_id")
+    da = pc.methods.get("demand_attention")
+    if hc is None or gen is None or da is None:
+        raise AnalysisError("_handle_connections / _generate_connection_id / demand_attention not found")
+    ctx.use(hc, gen, da)
+    ctx.rule(rule, "self-pipe: one wake-up = one connection id; the reader consumes exactly one id "
+                   "per read or handles every id of a batched read", floor=2)
+    # token size
+    tok = None
+    for n in ast.walk(gen.node):
+        if isinstance(n, ast.Call) and A.call_name(n) in ("os.urandom", "secrets.token_bytes") and n.args:
+            tok = model.try_fold(n.args[0], gen.module)
+    cons = "self-pipe:token"
+    ctx.inst(cons, rule=rule, sample={"bytes": tok})
+    wr = [n for n in ast.walk(da.node) if isinstance(n, ast.Call) and A.call_name(n) == "os.write"]
+    if tok is None or len(wr) != 1 or len(wr[0].args) != 2 \
+            or ast.unparse(wr[0].args[1]).replace(" ", "") != "bytes.fromhex(self.ident)":
+        ctx.fail(cons, da.loc(), "demand_attention does not write the connection id "
+                 "(bytes.fromhex(self.ident)) of a fixed size to the interrupt pipe", rule=rule)
+        return
+    reads = [n for n in ast.walk(hc.node) if isinstance(n, ast.Call) and A.call_name(n) == "os.read"
+             and n.args and "interrupt_read" in ast.unparse(n.args[0])]
+    cons = "self-pipe:reader"
+    ctx.inst(cons, rule=rule, sample={"reads": [ast.unparse(r) for r in reads]})
+    if len(reads) != 1 or len(reads[0].args) != 2:
+        ctx.fail(cons, hc.loc(), f"expected one os.read(self.interrupt_read, n) in _handle_connections, "
+                 f"found {len(reads)}", rule=rule)
+        return
+    n_ = model.try_fold(reads[0].args[1], hc.module)
+    if n_ == tok:
+        return
+    if not isinstance(n_, int) or n_ < tok or n_ % tok:
+        ctx.fail(cons, hc.loc(reads[0]), f"the reader takes {n_!r} bytes from the pipe, wake-ups are "
+                 f"{tok} bytes: ids are split across reads", rule=rule)
+        return
+    # batched read: all tokens must be iterated, no early exit
+    par = A.parents(hc.node)
+    st = reads[0]
+    while not isinstance(st, ast.stmt):
+        st = par[st]
+    buf = A.dotted(st.targets[0]) if isinstance(st, ast.Assign) and len(st.targets) == 1 else None
+    loops = [l for l in ast.walk(hc.node) if isinstance(l, ast.For) and buf is not None
+             and any(isinstance(x, ast.Name) and x.id == buf for x in ast.walk(l.iter))]
+    if buf is None or not loops:
+        ctx.fail(cons, hc.loc(reads[0]), f"up to {n_ // tok} wake-ups are read at once but only one "
+                 f"connection id is taken from them: the other connections' wake-ups are lost (a "
+                 f"CLOSED/CLOSING connection signalled in the same batch is never torn down)", rule=rule)
+        return
+    lp = loops[0]
+    step_ok = isinstance(lp.iter, ast.Call) and A.call_name(lp.iter) == "range" and len(lp.iter.args) == 3 \
+        and model.try_fold(lp.iter.args[2], hc.module) == tok
+    if not step_ok:
+        ctx.fail(cons + "#step", hc.loc(lp), f"the batched wake-ups are not walked in steps of {tok} "
+                 f"bytes over the whole buffer", rule=rule)
+
+    def exits(body, depth=0):
+        for s_ in body:
+            if isinstance(s_, (ast.Break, ast.Return)):
+                yield s_
+            if isinstance(s_, (ast.For, ast.While)):
+                for x in exits(s_.orelse):
+                    yield x
+                for x in ast.walk(s_):
+                    if isinstance(x, ast.Return):
+                        yield x
+                continue
+            for fld in ("body", "orelse", "finalbody"):
+                sub = getattr(s_, fld, None)
+                if isinstance(sub, list) and sub and isinstance(sub[0], ast.stmt):
+                    yield from exits(sub)
+            if isinstance(s_, ast.Try):
+                for h in s_.handlers:
+                    yield from exits(h.body)
+    ex = list(exits(lp.body))
+    if ex:
+        ctx.fail(cons + "#early-exit", hc.loc(ex[0]), f"the loop over the batched wake-ups is left "
+                 f"early (`{ast.unparse(ex[0])}`): the ids queued behind that position are dropped, "
+                 f"e.g. the wake-up of a connection whose DPA has arrived is lost and it lingers "
+                 f"until the wait timeout", rule=rule)
+
+
+ROUTE_OWNERS = {"add_application", "add_peer", "__init__"}
+_MUTATORS = {"append", "extend", "remove", "pop", "clear", "insert", "sort", "reverse", "update",
+             "setdefault", "popitem", "__iadd__"}
+
+
+def route_lists_not_aliased(ctx: Ctx, rule: str):
+    """The peer lists stored in Node._peer_routes are modified only by the functions that own
+    the table (add_application / add_peer).  Everywhere else a name bound to one of those lists
+    (loop variable over the table, subscript of it) is read-only, and is not stored into a
+    scratch container that is then modified in place (`d[k] = peers; d[k] += more` extends the
+    route table itself)."""
+    model = ctx.model
+    nc = model.cls("node.node", "Node")
+    ctx.rule(rule, "route-table peer lists are never mutated (directly or through an alias kept "
+                   "in a scratch container) outside add_application/add_peer", floor=3)
+
+    def mentions_tbl(e, tainted):
+        for x in ast.walk(e):
+            if isinstance(x, ast.Attribute) and x.attr == "_peer_routes":
+                return True
+            if isinstance(x, ast.Name) and x.id in tainted:
+                return True
+        return False
+
+    def is_copy(e):
+        if isinstance(e, ast.Call) and A.call_name(e) in ("list", "tuple", "set", "sorted", "copy.copy",
+                                                           "copy", "deepcopy", "copy.deepcopy", "dict"):
+            return True
+        if isinstance(e, ast.Call) and isinstance(e.func, ast.Attribute) and e.func.attr == "copy":
+            return True
+        if isinstance(e, ast.Subscript) and isinstance(e.slice, ast.Slice):
+            return True
+        if isinstance(e, (ast.ListComp, ast.List, ast.BinOp, ast.GeneratorExp, ast.SetComp, ast.DictComp)):
+            return True
+        return False
+
+    for f in nc.all_funcs:
+        if f.name in ROUTE_OWNERS or "_peer_routes" not in ast.unparse(f.node):
+            continue
+        ctx.use(f)
+        cons = f"{f.qualname}:route-lists-read-only"
+        tainted: set[str] = set()
+        holders: set[str] = set()
+        changed = True
+        while changed:
+            changed = False
+            for n in A.walk_no_nested(f.node):
+                new = set()
+                if isinstance(n, ast.For) and mentions_tbl(n.iter, tainted) and not is_copy(n.iter) \
+                        or isinstance(n, ast.For) and isinstance(n.iter, ast.Call) and A.call_name(n.iter) == "list" \
+                        and n.iter.args and mentions_tbl(n.iter.args[0], tainted):
+                    new |= {y.id for y in ast.walk(n.target) if isinstance(y, ast.Name)}
+                elif isinstance(n, ast.Assign) and not is_copy(n.value) and mentions_tbl(n.value, tainted) \
+                        and isinstance(n.value, (ast.Name, ast.Subscript, ast.Attribute, ast.Call)):
+                    for t in n.targets:
+                        if isinstance(t, ast.Name):
+                            new.add(t.id)
+                        elif isinstance(t, ast.Subscript) and isinstance(t.value, ast.Name) \
+                                and isinstance(n.value, ast.Name):
+                            if t.value.id not in holders:
+                                holders.add(t.value.id)
+                                changed = True
+                elif isinstance(n, ast.Call) and isinstance(n.func, ast.Attribute) \
+                        and n.func.attr in ("setdefault", "append", "add") and isinstance(n.func.value, ast.Name) \
+                        and n.args and isinstance(n.args[-1], ast.Name) and n.args[-1].id in tainted \
+                        and n.func.value.id not in tainted:
+                    if n.func.value.id not in holders:
+                        holders.add(n.func.value.id)
+                        changed = True
+                if new - tainted:
+                    tainted |= new
+                    changed = True
+        # loop variables that are scalars (app keys, peers) are harmless: only list/dict mutation
+        # operations are looked for below
+        ctx.inst(cons, rule=rule, sample={"bound_to_table": sorted(tainted), "alias_holders": sorted(holders)})
+        for n in A.walk_no_nested(f.node):
+            bad = None
+            if isinstance(n, ast.AugAssign):
+                t = n.target
+                if isinstance(t, ast.Name) and t.id in tainted:
+                    bad = n
+                elif isinstance(t, ast.Subscript) and isinstance(t.value, ast.Name) \
+                        and (t.value.id in holders or t.value.id in tainted):
+                    bad = n
+            elif isinstance(n, ast.Call) and isinstance(n.func, ast.Attribute) and n.func.attr in _MUTATORS:
+                b = n.func.value
+                if isinstance(b, ast.Name) and b.id in tainted:
+                    bad = n
+                elif isinstance(b, ast.Subscript) and isinstance(b.value, ast.Name) and b.value.id in holders:
+                    bad = n
+                elif isinstance(b, ast.Subscript) and mentions_tbl(b, set()) and n.func.attr != "setdefault":
+                    bad = n
+            elif isinstance(n, ast.Delete):
+                for t in n.targets:
+                    if isinstance(t, ast.Subscript) and isinstance(t.value, ast.Name) and t.value.id in tainted:
+                        bad = n
+            if bad is not None:
+                ctx.fail(cons, f.loc(bad), f"`{ast.unparse(bad)[:80]}` in {f.qualname} modifies a peer "
+                         f"list that belongs to Node._peer_routes (bound through "
+                         f"{sorted(tainted | holders)}): the route table changes as a side effect - "
+                         f"entries accumulate with every call and requests are routed to peers "
+                         f"that were never configured for the application/realm", rule=rule)
+                break
